@@ -19,7 +19,7 @@ static bool gen_c11(uint64_t seed, const std::string &tier, uint64_t i, Plan &p)
                          {"joe-x", 511, "/home/joex", 511, true}, {"Mixed", 512, "/home/mixed", 512, true}, {"averyveryveryveryverylongaccountname", 513, "/home/long", 513, true}, {"a", 514, "/home/a", 514, true}};
   for (auto &u : us) if (r.chance(0.75)) pw.push(Json::obj().set("name", u.n).set("uid", u.uid).set("gid", 100 + u.uid % 7).set("home", u.home).set("home_uid", u.home_uid).set("home_exists", u.exists));
   p.knobs.set("passwd", pw);
-  static const std::vector<std::string> locs = {"joe", "joe-", "joe-list", "bill", "sales", "sales.", "x", "a", "", "j", "jo", "ROOT", "postmaster", "joe.shmoe", "Joe-Dev", "zaz-09", "ZAZ-09-ext", "liz"};
+  static const std::vector<std::string> locs = {"joe", "joe-", "joe-list", "bill", "sales", "sales.", "x", "a", "", "j", "jo", "ROOT", "postmaster", "joe.shmoe", "Joe-Dev", "zaz-09", "ZAZ-09-ext", "liz", "jos\xc3\xa9", "jos\xc3\xa9-list", "m\xfcller", "\xff", "\x80-x"};   // (bytes >= 0x80: hashing and comparison must treat them as unsigned)
   int tab = (int)r.below(10);
   std::vector<std::string> wild_locs, simple_locs;
   if (tab < 7) {   // users/assign present
